@@ -263,13 +263,13 @@ theorem abs_esin_lt_one (e x : ℝ) (he0 : 0 ≤ e) (he1 : e < 1) : |e * sin x| 
 hypothesis): for `0 ≤ e ≤ 0.3`, `a, k0 > 0`, `|φ| ≤ 1.5 rad` (85.9°), `|λ|, |λ − λ₀| ≤ sPi`:
 inverse(forward(λ, φ)) reports no error, returns λ exactly and a latitude within 1.2e-11 rad of φ. -/
 theorem C08_merc_ell_inv_within (c : MercC ℝ) (hs : c.sr.sphere = false) (ha : 0 < c.sr.a) (hk : 0 < c.k0)
-    (he0 : 0 ≤ c.sr.e) (he3 : c.sr.e ≤ 0.3) (lon lat : ℝ) (hlat : |lat| ≤ 1.5)
+    (he0 : 0 ≤ c.e) (he3 : c.e ≤ 0.3) (lon lat : ℝ) (hlat : |lat| ≤ 1.5)
     (hlon : |lon| ≤ sPi) (hdl : |lon - c.sr.long0| ≤ sPi) :
     ∃ lat', (fwdMerc c lon lat).bind (fun q => invMerc c q.1 q.2) = .ok (lon, lat') ∧ |lat' - lat| ≤ 1.2e-11 := by
   have hpi : (3.14 : ℝ) < π := pi_gt_d2
   have hlt : |lat| < π / 2 := by linarith
-  have he := abs_esin_lt_one c.sr.e lat he0 (by linarith)
-  obtain ⟨r, hr, hb⟩ := C08_phi2z_converges c.sr.e lat he0 he3 hlt
+  have he := abs_esin_lt_one c.e lat he0 (by linarith)
+  obtain ⟨r, hr, hb⟩ := C08_phi2z_converges c.e lat he0 he3 hlt
   refine ⟨r, ?_, hb⟩
   rw [merc_chain c hs ha hk lon lat hlat he hlon hdl, hr]
   rfl
@@ -688,11 +688,11 @@ theorem logTs_sin_lipschitz (e : ℝ) (he0 : 0 ≤ e) (he1 : e < 1) (x y : ℝ) 
 `|φ| ≤ 1.49 rad` (85.37°): project, un-project and project again all succeed, the easting is reproduced EXACTLY and
 the northing within `2e-10·a·k0` — 1.3 mm for `a·k0` up to 6.4e6 m (hence < 1 cm whenever `a·k0 ≤ 5e7`). -/
 theorem C08_merc_ell_reproject_within (c : MercC ℝ) (hs : c.sr.sphere = false) (ha : 0 < c.sr.a) (hk : 0 < c.k0)
-    (he0 : 0 ≤ c.sr.e) (he3 : c.sr.e ≤ 0.3) (lon lat : ℝ) (hlat : |lat| ≤ 1.49)
+    (he0 : 0 ≤ c.e) (he3 : c.e ≤ 0.3) (lon lat : ℝ) (hlat : |lat| ≤ 1.49)
     (hlon : |lon| ≤ sPi) (hdl : |lon - c.sr.long0| ≤ sPi) :
     ∃ x y lat' y', fwdMerc c lon lat = .ok (x, y) ∧ invMerc c x y = .ok (lon, lat') ∧
       fwdMerc c lon lat' = .ok (x, y') ∧ |y' - y| ≤ 2e-10 * (c.sr.a * c.k0) := by
-  have he1 : c.sr.e < 1 := by linarith
+  have he1 : c.e < 1 := by linarith
   have hlat15 : |lat| ≤ 1.5 := by linarith
   obtain ⟨lat', hinv, hb⟩ := C08_merc_ell_inv_within c hs ha hk he0 he3 lon lat hlat15 hlon hdl
   have hlat' : |lat'| ≤ 1.5 := by
@@ -702,17 +702,17 @@ theorem C08_merc_ell_reproject_within (c : MercC ℝ) (hs : c.sr.sphere = false)
   rw [fwdMerc_ell c hs lon lat hlat15] at hinv
   simp only [Except.bind] at hinv
   refine ⟨_, _, lat', _, fwdMerc_ell c hs lon lat hlat15, hinv, fwdMerc_ell c hs lon lat' hlat', ?_⟩
-  rw [log_tsfnz c.sr.e lat he0 he1 (by linarith), log_tsfnz c.sr.e lat' he0 he1 (by linarith)]
-  have hl := logTs_sin_lipschitz c.sr.e he0 he1 lat' lat (by linarith) (by linarith)
+  rw [log_tsfnz c.e lat he0 he1 (by linarith), log_tsfnz c.e lat' he0 he1 (by linarith)]
+  have hl := logTs_sin_lipschitz c.e he0 he1 lat' lat (by linarith) (by linarith)
   have hak : 0 < c.sr.a * c.k0 := mul_pos ha hk
-  have e : c.sr.y0 - c.sr.a * c.k0 * logTs c.sr.e (sin lat') - (c.sr.y0 - c.sr.a * c.k0 * logTs c.sr.e (sin lat))
-      = -(c.sr.a * c.k0) * (logTs c.sr.e (sin lat') - logTs c.sr.e (sin lat)) := by ring
+  have e : c.sr.y0 - c.sr.a * c.k0 * logTs c.e (sin lat') - (c.sr.y0 - c.sr.a * c.k0 * logTs c.e (sin lat))
+      = -(c.sr.a * c.k0) * (logTs c.e (sin lat') - logTs c.e (sin lat)) := by ring
   rw [e, abs_mul, abs_neg, abs_of_pos hak]
-  have : |logTs c.sr.e (sin lat') - logTs c.sr.e (sin lat)| ≤ 2e-10 := by
+  have : |logTs c.e (sin lat') - logTs c.e (sin lat)| ≤ 2e-10 := by
     calc _ ≤ 1 / 0.06 * |lat' - lat| := hl
       _ ≤ 1 / 0.06 * 1.2e-11 := mul_le_mul_of_nonneg_left hb (by norm_num)
       _ ≤ 2e-10 := by norm_num
-  calc c.sr.a * c.k0 * |logTs c.sr.e (sin lat') - logTs c.sr.e (sin lat)| ≤ c.sr.a * c.k0 * 2e-10 :=
+  calc c.sr.a * c.k0 * |logTs c.e (sin lat') - logTs c.e (sin lat)| ≤ c.sr.a * c.k0 * 2e-10 :=
         mul_le_mul_of_nonneg_left this hak.le
     _ = 2e-10 * (c.sr.a * c.k0) := by ring
 
